@@ -9,7 +9,6 @@ package main
 // (retry1 / subretry in c06.go record the same way.)
 
 import (
-	"bytes"
 	"context"
 	"fmt"
 	"math/big"
@@ -19,6 +18,7 @@ import (
 	"sort"
 	"strings"
 	"sync"
+	"sync/atomic"
 	"time"
 
 	"github.com/ChainSafe/sygma-relayer/chains/evm/calls/consts"
@@ -77,14 +77,32 @@ func renderSends(rs []sendRec) string {
 	return joinOr(out, ";")
 }
 
-// sendersDone waits until no goroutine started by a HandleEvents call is left: every goroutine's stack (its frames and its
-// "created by" line) is inspected, so a sender that has not even been scheduled yet is seen. Exact, not timing dependent;
-// gives up after ~10 s.
-func sendersDone() bool {
+// handleEventsGoroutines returns the ids of the goroutines whose stack (frames or "created by" line) mentions HandleEvents.
+func handleEventsGoroutines() map[string]bool {
 	buf := make([]byte, 1<<20)
+	n := runtime.Stack(buf, true)
+	ids := map[string]bool{}
+	for _, blk := range strings.Split(string(buf[:n]), "\n\n") {
+		if strings.Contains(blk, "HandleEvents") && strings.HasPrefix(blk, "goroutine ") {
+			ids[strings.SplitN(blk[len("goroutine "):], " ", 2)[0]] = true
+		}
+	}
+	return ids
+}
+
+// sendersDone waits until no goroutine started by the HandleEvents call just made is left: every goroutine's stack (its
+// frames and its "created by" line) is inspected, so a sender that has not even been scheduled yet is seen. `before` = the
+// goroutines that were already inside a HandleEvents (left over from an op that hung). Exact, not timing dependent; gives
+// up after ~10 s.
+func sendersDone(before map[string]bool) bool {
 	for i := 0; i < 10000; i++ {
-		n := runtime.Stack(buf, true)
-		if !bytes.Contains(buf[:n], []byte("HandleEvents")) {
+		left := false
+		for id := range handleEventsGoroutines() {
+			if !before[id] {
+				left = true
+			}
+		}
+		if !left {
 			return true
 		}
 		if i < 20 {
@@ -100,11 +118,12 @@ func sendersDone() bool {
 // (cls = err | panic | stuck when the call did not complete normally).
 func collectRaw(f func(ch chan []*message.Message) error) (sent [][]*message.Message, cls string) {
 	ch := make(chan []*message.Message, 4096)
+	before := handleEventsGoroutines()
 	cls = guarded(func() error { return f(ch) })
 	if cls != "ok" {
 		return nil, cls
 	}
-	if !sendersDone() {
+	if !sendersDone(before) {
 		return nil, "stuck"
 	}
 	for {
@@ -160,6 +179,40 @@ func (c *c06Client2) FetchEventLogs(ctx context.Context, a common.Address, event
 		return c.retries2, nil
 	}
 	return c.c06Client.FetchEventLogs(ctx, a, event, s, e)
+}
+
+// runChild runs one driver line in a child process whose address space is limited to 4 GiB and returns its result,
+// `crash` when the child died, `hang` when it did not answer in time.
+func runChild(line string, timeout time.Duration) string {
+	// a dead or silent child is only reported when it reproduces (a paused VM or a killed process must not look like a finding)
+	if r := runChildOnce(line, timeout); r != "hang" && r != "crash" {
+		return r
+	}
+	return runChildOnce(line, timeout)
+}
+
+func runChildOnce(line string, timeout time.Duration) string {
+	cmd := exec.Command("/bin/sh", "-c", "ulimit -v 4194304; exec \"$0\" -exec", os.Args[0])
+	cmd.Stdin = strings.NewReader(line + "\n")
+	cmd.Env = os.Environ()
+	var buf strings.Builder
+	cmd.Stdout = &buf
+	if err := cmd.Start(); err != nil {
+		panic(err)
+	}
+	var killed atomic.Bool
+	t := time.AfterFunc(timeout, func() { killed.Store(true); cmd.Process.Kill() })
+	err := cmd.Wait()
+	t.Stop()
+	if killed.Load() {
+		return "hang"
+	}
+	if err == nil {
+		if i := strings.LastIndex(buf.String(), " => "); i >= 0 {
+			return strings.TrimSpace(buf.String()[i+4:])
+		}
+	}
+	return "crash"
 }
 
 // ---- recording relayed chain for the route op
@@ -319,26 +372,15 @@ func init() {
 		for _, it := range items(a[0], ";") {
 			classes = append(classes, evmClass(evmLog(it, nil), nil))
 		}
-		cmd := exec.Command(os.Args[0], "-exec")
-		cmd.Stdin = strings.NewReader("C06 routechild " + a[0] + "\n")
-		cmd.Env = os.Environ()
-		var buf strings.Builder
-		cmd.Stdout = &buf
-		if err := cmd.Start(); err != nil {
-			panic(err)
+		return joinOr(classes, ",") + "|" + runChild("C06 routechild "+a[0], 15*time.Second)
+	}
+	// iso <op> <items>: the whole op (observation of the single deposits included) in a memory-bounded child process with a
+	// short deadline. Whatever a deposit does that no recover() can catch — a fatal out-of-memory, a stack overflow, an
+	// endless loop — shows as `crash` / `hang` here instead of taking the driver down.
+	ops["C06.iso"] = func(a []string) string {
+		if _, ok := ops["C06."+a[0]]; !ok || a[0] == "iso" {
+			panic("bad inner op")
 		}
-		killed := false
-		t := time.AfterFunc(15*time.Second, func() { killed = true; cmd.Process.Kill() })
-		err := cmd.Wait()
-		t.Stop()
-		res := "crash"
-		if killed {
-			res = "stuck"
-		} else if err == nil {
-			if i := strings.LastIndex(buf.String(), " => "); i >= 0 {
-				res = strings.TrimSpace(buf.String()[i+4:])
-			}
-		}
-		return joinOr(classes, ",") + "|" + res
+		return runChild("C06 "+a[0]+" "+a[1], 4*time.Second)
 	}
 }
